@@ -63,7 +63,7 @@ def select_and_lazy_section(ctx, viol):
             with simlib.quiet():
                 view = m.select(nodes=rows) if rng.random() < 0.8 else m
             labels = list(view.nodes.index)
-            how = rng.choice(["mask", "mask_list", "labels", "unsorted", "unsorted_sorted"])
+            how = rng.choice(["mask", "mask_list", "labels", "unsorted", "unsorted_sorted", "slice", "slice"])
             try:
                 with simlib.quiet():
                     if how in ("mask", "mask_list"):
@@ -72,6 +72,27 @@ def select_and_lazy_section(ctx, viol):
                             mask[rng.randrange(len(mask))] = True
                         want = [l for l, b in zip(labels, mask) if b]
                         got = list(view.select(np.asarray(mask) if how == "mask" else mask).nodes.index)
+                    elif how == "slice":
+                        # a slice denotes rows of the MODULE (labels), of which the view keeps its own
+                        # (rows outside the view are refused with a KeyError, so the slice is drawn inside a run of
+                        # consecutive rows of the view; on the whole module any slice is inside)
+                        runs, cur = [], [labels[0]]
+                        for l in labels[1:]:
+                            if l == cur[-1] + 1:
+                                cur.append(l)
+                            else:
+                                runs.append(cur)
+                                cur = [l]
+                        runs.append(cur)
+                        run = rng.choice(runs)
+                        a = rng.randrange(len(run))
+                        b = rng.randint(a + 1, len(run))
+                        st = rng.choice([None, None, 2])
+                        lo = None if (run[a] == 0 and rng.random() < 0.5) else run[a]
+                        hi = None if (run[b - 1] == n - 1 and rng.random() < 0.5) else run[b - 1] + 1
+                        sl = slice(lo, hi, st)
+                        want = list(range(n)[sl])
+                        got = list(view.select(nodes=sl).nodes.index)
                     else:
                         pick = rng.sample(labels, rng.randint(1, len(labels)))
                         if how == "labels":
